@@ -137,6 +137,9 @@ def run_standard(case):
         kw.update(checkpointing=True, checkpoint_on_iteration=True, checkpoint_interval=case.get("checkpoint_interval", 40))
     model = zoo.make(case["model"], **case.get("model_kwargs", {}))
     mon = StandardMonitors(model, stop_at_iteration=resume_at)
+    if case.get("stop_after_mid_iteration_training"):
+        kw.update(checkpointing=True)
+        mon.stop_after_mid_iteration_training = int(case["stop_after_mid_iteration_training"])
     mon.abort_props = case.get("props")
     mon.continuous = case["model"] != "Tie2" or True
     res = dict(name=case.get("name"), segments=0, error=None)
